@@ -253,7 +253,15 @@ impl StateMachine<'_> {
             };
             let label = format_label(&self.config.file_modified_label);
             let name = get_repeated_file_path_from_diff_line(&self.diff_line).unwrap_or_default();
-            let line = format!("{}{}", label, format_file(&name));
+            // A "Binary files ... differ" line has left its note on the file names: keep it.
+            let binary_note = if self.plus_file.ends_with(" (binary file)")
+                || self.minus_file.ends_with(" (binary file)")
+            {
+                " (binary file)"
+            } else {
+                ""
+            };
+            let line = format!("{}{}{}", label, format_file(&name), binary_note);
             write_generic_diff_header_header_line(
                 &line,
                 &line,
